@@ -186,7 +186,9 @@ def _run_case(case, ob, tier):
             compare(ob, block, ra, rb, assume, v, site, K, all_wires=True)
         else:
             regs, mems = init_values(case, block)
-            sp = spec.run(block, K, v, reg_init=regs, mem_init='default')
+            # the no-double-write precondition is evaluated for the ACTUAL initial contents (enables may depend on reads)
+            sp = spec.run(block, K, v, reg_init=regs, mem_init={
+                mem.name: SymMem.from_dict(mems.get(mem.name, {}), 0, mem.addrwidth, mem.bitwidth) for mem in simdrv.mems_of(block).values()})
             assume = [z3.Not(d) for d in sp.double_write]
             cm = CompiledModel(block, regvals=regs, memvals=mems)
             rb = run_compiled(cm, K, v, assumptions=assume)
